@@ -41,6 +41,20 @@ pub const NAMES: &[&str] = &[
     "\u{e9}.pdb", "\u{e9}.cif.gz", "a.pdb\u{e9}", "a.\u{e9}.gz",
 ];
 
+/// a hydrogen record / row: its atom gets hydrogen as element (the element text, else the whole name, else the name's
+/// first letter if that is one of C H N O S); only the symbol table is taken from the library
+fn is_hydrogen(element: &str, name: &str) -> bool {
+    let (element, name) = (element.trim(), name.trim());
+    let found = match pdbtbx::Element::from_symbol(element) {
+        Some(e) => Some(e),
+        None => match pdbtbx::Element::from_symbol(name) {
+            Some(e) => Some(e),
+            None => name.chars().next().filter(|c| "CHNOS".contains(*c)).and_then(|c| pdbtbx::Element::from_symbol(c.to_string())),
+        },
+    };
+    found == Some(pdbtbx::Element::H)
+}
+
 pub fn run(seed: u64, count: usize, _thorough: bool, out: &mut Out, tmp: &str) {
     let mut rng = Rng::new(seed);
     // ---------- 1. the options as filters, PDB ----------
@@ -50,13 +64,16 @@ pub fn run(seed: u64, count: usize, _thorough: bool, out: &mut Out, tmp: &str) {
         // hydrogens anywhere, including first
         if i % 2 == 0 {
             // the first atom of every model (the models have to keep corresponding)
+            let spelling = (i / 2) % 4;
             let mut first = true;
             for r in recs.iter_mut() {
                 match r {
                     pdbgen::Rec::Model(_) => first = true,
                     pdbgen::Rec::Atom(a) if first => {
-                        a.element = "H".into();
-                        a.name = "H".into();
+                        // hydrogen by the element column (either case), or by the name alone when the column is blank
+                        let (e, n) = [("H", "H"), ("h", "H1"), ("", "HA"), ("H", "CA")][spelling];
+                        a.element = e.into();
+                        a.name = n.into();
                         first = false;
                     }
                     _ => {}
@@ -64,10 +81,10 @@ pub fn run(seed: u64, count: usize, _thorough: bool, out: &mut Out, tmp: &str) {
             }
         }
         let text = pdbgen::text(&mut rng, &recs);
-        let n_h = recs.iter().filter(|r| matches!(r, pdbgen::Rec::Atom(a) if a.element.trim() == "H")).count();
+        let n_h = recs.iter().filter(|r| matches!(r, pdbgen::Rec::Atom(a) if is_hydrogen(&a.element, &a.name))).count();
         out.count(&format!("pdb:hydrogen-records:{}", n_h.min(3)));
         // the same records without the hydrogen records, rendered afresh
-        let recs_no_h: Vec<pdbgen::Rec> = recs.iter().filter(|r| !matches!(r, pdbgen::Rec::Atom(a) if a.element.trim() == "H")).cloned().collect();
+        let recs_no_h: Vec<pdbgen::Rec> = recs.iter().filter(|r| !matches!(r, pdbgen::Rec::Atom(a) if is_hydrogen(&a.element, &a.name))).cloned().collect();
         let text_no_h = pdbgen::text(&mut rng, &recs_no_h);
         for opts in 0..8usize {
             let (obs, pdb) = read_obs_format(text.as_bytes(), Format::Pdb, opts, 2);
@@ -92,9 +109,10 @@ pub fn run(seed: u64, count: usize, _thorough: bool, out: &mut Out, tmp: &str) {
     for i in 0..count {
         let mut d = cifgen::document(&mut rng);
         if i % 2 == 0 {
+            let (hty, hname) = [("H", "H"), ("h", "H1"), ("X", "HA"), ("H", "CA")][(i / 2) % 4];
             if let Some(r) = d.rows.first_mut() {
-                r.ty = "H".into();
-                r.name = "H".into();
+                r.ty = hty.into();
+                r.name = hname.into();
             }
             // the first row of every model, wherever the rows of the models stand (so that the models keep corresponding);
             // only when the models have the same number of rows, otherwise the first row alone
@@ -110,17 +128,17 @@ pub fn run(seed: u64, count: usize, _thorough: bool, out: &mut Out, tmp: &str) {
                 for r in d.rows.iter_mut() {
                     if !seen.contains(&r.model) {
                         seen.push(r.model);
-                        r.ty = "H".into();
-                        r.name = "H".into();
+                        r.ty = hty.into();
+                        r.name = hname.into();
                     }
                 }
             }
         }
         let text = cifgen::render(&mut rng, &d, Spelling::Any, i % 3 == 0);
-        let n_h = d.rows.iter().filter(|r| r.ty.trim() == "H").count();
+        let n_h = d.rows.iter().filter(|r| is_hydrogen(&r.ty, &r.name)).count();
         out.count(&format!("cif:hydrogen-rows:{}", n_h.min(3)));
         let mut d_no_h = d.clone();
-        d_no_h.rows.retain(|r| r.ty.trim() != "H");
+        d_no_h.rows.retain(|r| !is_hydrogen(&r.ty, &r.name));
         let text_no_h = cifgen::render(&mut rng, &d_no_h, Spelling::Any, false);
         for opts in 0..8usize {
             let (obs, pdb) = read_obs_format(text.as_bytes(), Format::Mmcif, opts, 2);
